@@ -250,6 +250,16 @@ impl<'d> Rd<'d> {
         }
     }
 
+    /// Attributes::has_nil against this namespace reader
+    pub fn has_nil(&self, e: &quick_xml::events::BytesStart<'_>) -> Option<bool> {
+        match &self.r {
+            AnyReader::NsSlice(r) => Some(e.attributes().has_nil(r)),
+            AnyReader::NsSync(r) => Some(e.attributes().has_nil(r)),
+            AnyReader::NsAsync(r) => Some(e.attributes().has_nil(r)),
+            _ => None,
+        }
+    }
+
     /// in-scope prefix listing as (prefix or "" for default, uri), in iteration order
     pub fn prefixes(&self) -> Option<Vec<(Vec<u8>, Vec<u8>)>> {
         macro_rules! go {
